@@ -687,6 +687,8 @@ def cmp(op, a, b):
             return other if pos else lnot(other)
     if op in ("is", "isnot") and (a is None or b is None):
         other = b if a is None else a
+        if other is not None and isinstance(other, (list, tuple, dict, bytes, str, int, float)):
+            return op == "isnot"  # a list / tuple / ... of known structure (whatever its elements) is not None
         if isinstance(other, T) and other.op in _NEVER_NONE:
             return op == "isnot"
     # canonical orientation: constant on the right; gt/ge rewritten to lt/le
@@ -944,6 +946,10 @@ def join(sep, lst):
                 return cat(parts)
         if isinstance(sep, str) and all(isinstance(e, str) for e in lst):
             return sep.join(lst)
+    if isinstance(lst, T) and lst.op == "lcat" and sep in (b"", ""):
+        # joining a concatenation of lists with the empty separator: the joined pieces, concatenated
+        pieces = [join(sep, _unfz_shallow(p)) for p in lst.args]
+        return cat(pieces) if sep == b"" else scat(pieces)
     return T("join", (sep, _fz(lst)), tyof(sep) if tyof(sep) in (BYTES, STR) else ANY)
 
 
@@ -1008,6 +1014,12 @@ def renorm(op, args, ty):
             return idx(_unfz_shallow(a[0]), a[1])
         if op == "len":
             return length(_unfz_shallow(a[0]))
+        if op == "proj" and isinstance(a[1], int) and not isinstance(a[1], bool):
+            base = _unfz_shallow(a[0])
+            if isinstance(base, (list, tuple)) and not (base and isinstance(base[0], str) and base[0].startswith("#")) and 0 <= a[1] < len(base):
+                return base[a[1]]  # a component of a tuple that has become explicit
+            if isinstance(base, (list, tuple)):
+                return T(op, (_fz(base), a[1]), ty)
         if op == "inrange" and all(isinstance(x, int) and not isinstance(x, bool) for x in a):
             return a[1] <= a[0] < a[2]
         if op == "hex":
